@@ -26,6 +26,16 @@ func main() {
 		die("usage: pcvh run|replay <engine> [flags]; engines: %v", engines.Names())
 	}
 	mode, name := os.Args[1], os.Args[2]
+	if mode == "one" && len(os.Args) == 4 {
+		// execute a single op in this (child) process and print its answer
+		e, ok := engines.Get(name)
+		if !ok {
+			die("unknown engine %q", name)
+		}
+		e.Reset()
+		fmt.Println(engines.SafeExec(e, os.Args[3]))
+		return
+	}
 	fs := flag.NewFlagSet("pcvh", flag.ExitOnError)
 	seed := fs.Uint64("seed", 1, "PRNG seed")
 	tier := fs.String("tier", "quick", "quick|thorough")
